@@ -7,6 +7,7 @@
 #include <setjmp.h>
 #include <stddef.h>
 #include <stdint.h>
+#include <string.h>
 
 #define SHIM_MAXBLK 8192
 #define SHIM_MAXEV  4096
@@ -52,8 +53,12 @@ int   __real_rand(void);
 
 /* run a library statement with abort trapping; AB receives 0 (returned), 1 (abort), 2 (assertion) */
 #define SHIM_CALL(AB, STMT) do {                                   \
+        jmp_buf shim_save_; int shim_was_armed_ = shim_armed;      \
+        memcpy(shim_save_, shim_jb, sizeof shim_save_);            \
         shim_armed = 1; shim_aborted = 0; shim_in_lib++;           \
         if (setjmp(shim_jb) == 0) { STMT; }                        \
-        shim_in_lib--; shim_armed = 0; (AB) = shim_aborted;        \
+        shim_in_lib--; (AB) = shim_aborted; shim_aborted = 0;      \
+        shim_armed = shim_was_armed_;                              \
+        memcpy(shim_jb, shim_save_, sizeof shim_save_);            \
     } while (0)
 #endif
